@@ -237,6 +237,67 @@ fn run(ctx: &mut Ctx) {
         }
         judge_vertices(ctx, &ts, ["identical tracks", "same beamline z", "equal z and radius", "chained z", "axis on the beamline", "random", "random"][tie_mode as usize]);
     });
+    // ---- several beamline clusters that tie for the largest multiplicity, each made of tracks that meet the beamline at
+    // exactly / almost exactly / roughly the same z (any tie-break computed from the z values then works on differences
+    // that cancel to 0 or +-1 ulp); some helices given in their negative-radius form (the same curve: r -> -r, phi0 -> phi0 + pi)
+    let n = ctx.tier.pick(1500, 60_000);
+    ctx.cases("tied-clusters", n, |ctx, i, rng| {
+        let nclusters = 2 + rng.usize(3);
+        let mult = 2 + rng.usize(3);
+        let zs = [0.1, 0.3, 0.7, -0.1, 0.25, 1.0, 1e-3, 0.123456789, -0.7, 0.2, 0.6, -0.3];
+        let spread_kind = i % 4;
+        let mut ts: Vec<Track> = Vec::new();
+        let z_first = if i % 3 == 0 { zs[rng.usize(zs.len())] } else { rng.range(-1.0, 1.0) };
+        for c in 0..nclusters {
+            let zc = z_first + 0.3 * c as f64 * if z_first > 0.0 { -1.0 } else { 1.0 };
+            for j in 0..mult {
+                let dz = match (spread_kind + c as u64) % 4 {
+                    0 => 0.0,
+                    1 => j as f64 * *rng.pick(&[1e-10, 1e-12, 1e-15, 5e-17]),
+                    2 => rng.range(-0.015, 0.015),
+                    _ => j as f64 * 0.009,
+                };
+                let rad = rng.range(0.3, 3.0);
+                let a = rng.range(-PI, PI);
+                let miss = rng.range(-0.02, 0.02);
+                let pitch = if rng.chance(0.6) { 0.0 } else { rng.range(-0.5, 0.5) };
+                let mut p = [(rad + miss) * a.cos(), (rad + miss) * a.sin(), zc + dz, rad, a + PI, pitch];
+                if rng.chance(0.15) {
+                    p[3] = -p[3];
+                    p[4] -= PI;
+                }
+                let s = if rng.bool() { 1.0 } else { -1.0 };
+                ts.push(vh::track_from_helix(p, s * 0.11 / rad, s * 0.19 / rad));
+            }
+        }
+        if rng.bool() {
+            rng.shuffle(&mut ts);
+        }
+        judge_vertices(ctx, &ts, "clusters tied in multiplicity");
+        ctx.count("track sets with clusters tied in multiplicity");
+    });
+    // ---- helices in their negative-radius form near the beamline, among ordinary tracks at the same z
+    let n = ctx.tier.pick(600, 30_000);
+    ctx.cases("negative-radius", n, |ctx, i, rng| {
+        let z = rng.range(-1.0, 1.0);
+        let mut ts: Vec<Track> = Vec::new();
+        for _ in 0..1 + rng.usize(3) {
+            let (zz, pitch) = (z + rng.range(-0.01, 0.01), *rng.pick(&PITCHES));
+            ts.push(synthetic_track(rng, zz, pitch));
+        }
+        for _ in 0..1 + rng.usize(2) {
+            // small or large |r|, axis such that the curve passes within a few cm of the beamline
+            let rad = if i % 2 == 0 { rng.range(1e-4, 0.05) } else { rng.range(0.05, 3.0) };
+            let a = rng.range(-PI, PI);
+            let d = rad + rng.range(-0.05, 0.05);
+            let p = [d * a.cos(), d * a.sin(), z + rng.range(-0.02, 0.02), -rad, a, rng.range(-0.3, 0.3)];
+            let (t0, t1) = if rad < 0.06 { (rng.range(-3.0, 0.0), rng.range(0.0, 3.0)) } else { (0.11 / rad, 0.19 / rad) };
+            ts.push(vh::track_from_helix(p, t0, t1));
+        }
+        rng.shuffle(&mut ts);
+        judge_vertices(ctx, &ts, "negative-radius helices among ordinary tracks");
+        ctx.count("track sets with negative-radius helices");
+    });
     ctx.require("cluster_spacepoints returned", 10);
     ctx.require("track sets that produced a primary vertex", 10);
 }
